@@ -29,6 +29,8 @@ def c01():
     j.append(K("c01_window::c01_small_ring_sequence", "capacity symbolic 1..=8, phase and contents symbolic: the whole sequence through Index and iter_rev after from_parts, and after one push", encodes=WIN_FNS, cost=20))
     j.append(K("c01_window::c01_iter_split32", "capacity symbolic 1..=32, iter() split after symbolic j <= N items: next/size_hint/len/count/last of the rest, fused", encodes=WIN_FNS, cost=60, timeout=900))
     j.append(K("c01_window::c01_iter_rev_split32", "capacity symbolic 1..=32, iter_rev() split after symbolic j <= N items", encodes=WIN_FNS, cost=50, timeout=900))
+    j.append(K("c01_window::c01_iter_split128", "capacity symbolic 1..=128, iter() split after symbolic j <= N items (deepening)", encodes=WIN_FNS, cost=1500, timeout=7200, tier="t", core=False, mem_gb=24))
+    j.append(K("c01_window::c01_iter_rev_split128", "capacity symbolic 1..=128, iter_rev() split after symbolic j <= N items (deepening)", encodes=WIN_FNS, cost=1500, timeout=7200, tier="t", core=False, mem_gb=24))
     return j
 
 
